@@ -1,6 +1,7 @@
 package harness
 
 import (
+	"bytes"
 	"crypto/tls"
 	"fmt"
 	"math/rand/v2"
@@ -567,6 +568,15 @@ func c18SharedCollector(env *Env, where, addr string, srv certPair, cert, cliCA,
 		return
 	}
 	defer stop()
+	// The application keeps its CA bundle in one buffer and overwrites that buffer when the bundle
+	// changes (the two bundles are padded to one length with trailing newlines, which PEM allows):
+	// what an exporting process is configured with is what the buffer holds when it is created.
+	caLen := max(len(z.CA.PEM), len(z.OtherCA.PEM)) + 1
+	padTo := func(b []byte) []byte {
+		return append(append([]byte(nil), b...), bytes.Repeat([]byte("\n"), caLen-len(b))...)
+	}
+	caBuf := make([]byte, caLen)
+	sharedBuf := domain0%2 == 0
 	for j, x := range exps {
 		if x.T > 0 {
 			env.Sleep(time.Duration(x.T) * 24 * time.Hour)
@@ -576,6 +586,11 @@ func c18SharedCollector(env *Env, where, addr string, srv certPair, cert, cliCA,
 		cfg := &exporter.ExporterTLSClientConfig{CAData: z.CA.PEM, ServerName: []string{"", serverDNSName, "wrong.example"}[snMode]}
 		if expCA == 1 {
 			cfg.CAData = z.OtherCA.PEM
+		}
+		if sharedBuf {
+			copy(caBuf, padTo(cfg.CAData))
+			cfg.CAData = caBuf
+			env.Count("probe.ca_bundle_buffer_overwritten_in_place", 1)
 		}
 		if cliCert > 0 {
 			cfg.CertData, cfg.KeyData = cliCerts[cliCert].CertPEM, cliCerts[cliCert].KeyPEM
